@@ -14,7 +14,7 @@ The Lean model mirrors the code WITH patches/C09-F8.patch and patches/C16-newlin
 """
 import fnmatch, hashlib, os, re, shutil, subprocess, time
 from common import Check, VERIF, REPO, sh, shrink
-import ignore_extract, c09
+import ignore_extract, c09, c16_extract
 from c09 import hx, unhx, Procs, enc_tree, normalise, show_tree
 from xvcbin import Sandbox
 
@@ -293,7 +293,8 @@ def with_contents(ents, contents):
 # ---------------------------------------------------------------------------------------------
 # histories: xvc commands and, between them, what a user does to the workspace
 
-USER_STEPS = ('u-rm-gitignore', 'u-regen-dir', 'u-del-line', 'u-modify')
+USER_STEPS = ('u-rm-gitignore', 'u-regen-dir', 'u-del-line', 'u-modify', 'u-pad')
+FAULT_STEPS = ('fault-fsize', 'fault-kill')
 
 
 def ext_of(f):
@@ -326,6 +327,9 @@ def step_text(c):
     if k == 'u-regen-dir': return f'user: rm -rf {c[1]}; regenerate the files below {c[1]}/ with identical content (no {GI})'
     if k == 'u-del-line': return f'user: delete the line {c[2]!r} from {c[1] or "."}/{GI}'
     if k == 'u-modify': return f'user: change the content of {c[1]}'
+    if k == 'u-pad': return f'user: own comment lines bring {c[1] or "."}/{GI} to {c[2]} bytes'
+    if k == 'fault-fsize': return f"[trap '' XFSZ; ulimit -f {c[1]}] " + step_text(tuple(c[2]))
+    if k == 'fault-kill': return f"[SIGKILL at the first write(2) to {c[1] or '.'}/{GI}] " + step_text(tuple(c[2]))
     return repr(c)
 
 
@@ -352,6 +356,19 @@ def user_step(sb, st, c, protected):
             lines = old.decode('utf-8', 'replace').split('\n')
             keep = [l for i, l in enumerate(lines) if l != c[2] or (not c[1] and i < protected)]
             sb.write(g, '\n'.join(keep))
+    elif k == 'u-pad':
+        # the user's own (comment) lines bring the .gitignore to exactly c[2] bytes
+        g = (c[1] + '/' if c[1] else '') + GI
+        old = sb.read(g) or b''
+        if old and not old.endswith(b'\n'): old += b'\n'
+        room = c[2] - len(old)
+        if room >= 3:
+            body = b''
+            while room - len(body) > 80:
+                body += b'# ' + b'p' * 61 + b'\n'
+            rest = room - len(body)
+            body += (b'# ' + b'p' * (rest - 3) + b'\n') if rest >= 3 else b''
+            sb.write(g, old + body)
     elif k == 'u-modify':
         f = c[1]
         if os.path.lexists(sb.path(f)):
@@ -541,6 +558,19 @@ def scenario(chk, pr, xvc, idx, rng, forced=None):
                 continue
             st['user_run'] = 0
             nx += 1
+            # a fault at the .gitignore update of this command: the file size limit of the process (EFBIG, what a full disk
+            # or an exceeded quota do as well), or SIGKILL at the first write(2) to the named .gitignore
+            fault, c0 = None, c
+            if c[0] in FAULT_STEPS:
+                fault, c = (c[0], c[1]), tuple(c[2])
+
+            def X(*args):
+                if fault is None:
+                    return sb.x(*args)
+                if fault[0] == 'fault-fsize':
+                    return sb.run(['bash', '-c', 'trap "" XFSZ; ulimit -f "$0"; exec "$@"', str(fault[1]), sb.xvc] + list(args))
+                g = sb.path((fault[1] + '/' if fault[1] else '') + GI)
+                return sb.run(['strace', '-f', '-o', '/dev/null', '-P', g, '-e', 'trace=write', '-e', 'inject=write:signal=KILL:when=1', sb.xvc] + list(args))
             before = read_gitignores(sb)
             ents = disk_tree(sb)
             on_disk = {f for f in files if os.path.lexists(sb.path(f))}
@@ -553,7 +583,7 @@ def scenario(chk, pr, xvc, idx, rng, forced=None):
             if c[0] == 'track':
                 targets, opts = list(c[1]), list(c[2]) if len(c) > 2 else []
                 no_commit = '--no-commit' in opts
-                rc, out, err = sb.x('file', 'track', *opts, *targets)
+                rc, out, err = X('file', 'track', *opts, *targets)
                 dts = [t.rstrip('/') for t in targets if t.endswith('/')]
                 fts = target_files(targets, on_disk)
                 # a .gitignore that git does not track (xvc wrote it inside a git-ignored directory, so the auto-commit could
@@ -602,7 +632,7 @@ def scenario(chk, pr, xvc, idx, rng, forced=None):
                 absent = {f for f in targets if not os.path.lexists(sb.path(f))}
                 mat = sorted(f for f in targets if (rec.get(f), ext_of(f)) in cache and (force or f in absent))
                 made = sorted({os.path.dirname(f) for f in mat if os.path.dirname(f) and not os.path.isdir(sb.path(os.path.dirname(f)))})
-                rc, out, err = sb.x('file', 'recheck', *(['--force'] if force else []), *targets)
+                rc, out, err = X('file', 'recheck', *(['--force'] if force else []), *targets)
                 # recheck_from_cache re-creates the parents: the model works on the tree that has them; with several missing
                 # parents the IgnoreDir operations depend on the order of the worker threads
                 if len(made) <= 1:
@@ -617,7 +647,7 @@ def scenario(chk, pr, xvc, idx, rng, forced=None):
                 chk.count('command:carry-in' + (':force' if force else ''))
                 present = [f for f in targets if f in on_disk]
                 carried = sorted(f for f in present if f in rec and (force or rec.get(f) != cur[f]))
-                rc, out, err = sb.x('file', 'carry-in', *(['--force'] if force else []), *targets)
+                rc, out, err = X('file', 'carry-in', *(['--force'] if force else []), *targets)
                 exp = model_after(pr, 'ghandler', ents, [], carried)
                 if rc == 0:
                     for f in carried:
@@ -630,7 +660,7 @@ def scenario(chk, pr, xvc, idx, rng, forced=None):
                 chk.count('command:' + c[0])
                 parent = os.path.dirname(dst)
                 missing = bool(parent) and not os.path.isdir(sb.path(parent))
-                rc, out, err = sb.x('file', c[0], src, dst)
+                rc, out, err = X('file', c[0], src, dst)
                 if rc == 0:
                     files.append(dst)
                     content[dst] = cur.get(src, rec.get(src, ''))
@@ -648,14 +678,29 @@ def scenario(chk, pr, xvc, idx, rng, forced=None):
                     named = {dst}
             else:
                 raise ValueError(f'unknown step {c!r}')
-            log.append({'cmd': desc, 'rc': rc, 'step': list(c)})
+            if fault:
+                # the targets of the failed command are not judged, the model does not predict a cut write: what is demanded is
+                # that every byte that was in every .gitignore is still there and that what was ignored before still is
+                desc = step_text(c0)
+                hit = (rc != 0 and 'File too large' in out + err) if fault[0] == 'fault-fsize' else rc in (-9, 137)
+                chk.count(f'{fault[0]}:{c[0]}:' + ('hit' if hit else 'not-hit'))
+                exp = exp_rec = None
+                named = set()
+                st['after_fault'] = True
+            elif st.get('after_fault'):
+                exp = exp_rec = None            # what a failed command recorded / carried is not part of the bookkeeping
+            log.append({'cmd': desc, 'rc': rc, 'step': list(c0)})
             if rc not in (0,):
-                log[-1]['stderr'] = err[-300:]
+                log[-1]['stderr'] = (out + err)[-300:]
             of, after, store = oracle_after(chk, sb, pr, before, desc, obliged=ign_before | named)
+            if fault:
+                of = [(m, dict(sg, fault=fault[0])) for m, sg in of]
             fails += of
-            # what we believe is recorded follows the store (a refused command records nothing)
+            # what we believe is recorded follows the store (a refused command records nothing, a failed one may have)
             for f in [f for f in rec if f not in store]:
                 chk.count('bookkeeping:believed-recorded-but-not-in-store'); rec.pop(f)
+            for f in [f for f in store if f not in rec and f in cur]:
+                rec[f] = cur[f]
             if exp is not None and rc == 0:
                 # an empty .gitignore and no .gitignore are the same workspace for the model (create+append)
                 got = {d: canon(c2) for d, c2 in after.items() if c2}
@@ -670,6 +715,90 @@ def scenario(chk, pr, xvc, idx, rng, forced=None):
     finally:
         sb.cleanup()
     return fails, tie, log
+
+
+def big_user_lines(nbytes):
+    """a long list of patterns of the user's own (none matches a data file of the scenarios), about nbytes bytes"""
+    out, i = ['# patterns of the user'], 0
+    while sum(len(l) + 1 for l in out) < nbytes:
+        i += 1; out.append('build-output-%04d/*.o' % i)
+    return '\n'.join(out) + '\n'
+
+
+def gen_fault_spec(rng, chk, strace_ok, k):
+    """a history whose LAST-but-one command updates a .gitignore (root or sub-directory) that the user's own lines made
+    larger than (or nearly as large as) the file size limit the command runs under; earlier commands tracked files whose
+    lines sit at the end of that file"""
+    n = rng.choice([4, 8, 16])
+    D = rng.choice(['', '', 'a', 'sub/b'])
+    here = D + '/' if D else ''
+    mode = 'fault-kill' if strace_ok and rng.random() < 0.2 else 'fault-fsize'
+    cross = mode == 'fault-fsize' and rng.random() < 0.25        # the appended block crosses the limit: cut in the middle
+    names = rng.sample(DATA, 4)
+    f0, f1, f2, f3 = [here + x for x in names]
+    other = ('c/' if D != 'c' else 'd/') + names[0]
+    files = [f0, f1, f2, here + 'sub2/' + names[3], other]
+    gis = {D: big_user_lines(n * 1024 * 5 // 4 if not cross else n * 1024 - 900)}
+    if rng.random() < 0.3: gis['' if D else 'c'] = '*.tmp\n'
+    cmds = [('track', [f0, f1], []) if rng.random() < 0.6 else ('track', [here + '*' + ext_of(f0), f1], [])]
+    if rng.random() < 0.4: cmds.append(('track', [other], []))
+    r = rng.random()
+    if r < 0.30: inner = ('track', [f2], ['--no-commit'] if rng.random() < 0.3 else [])
+    elif r < 0.42: inner = ('track', [here + '*' + ext_of(f2)], [])
+    elif r < 0.56: inner = ('track', [here + 'sub2/'], [])
+    elif r < 0.68: inner = ('copy', f0, here + 'copy%d%s' % (k, ext_of(f0)))
+    elif r < 0.80: inner = ('move', f0, here + 'moved%d%s' % (k, ext_of(f0)))
+    elif r < 0.90:
+        cmds.append(('u-del-line', D, '/' + os.path.basename(f1))); inner = ('rm-recheck', f1, False)
+    else:
+        cmds.append(('u-del-line', D, '/' + os.path.basename(f1))); inner = ('carry-in', [f1], True)
+    if cross:
+        cmds.append(('u-pad', D, n * 1024 - rng.randint(6, 70)))
+    cmds.append((mode, n if mode == 'fault-fsize' else D, inner))
+    if inner[0] == 'track' and mode == 'fault-fsize' and rng.random() < 0.5:
+        cmds.append(inner)                                      # the same command again, no fault: now its targets are judged
+    chk.count(f'fault-scenario:{mode}:{"root" if not D else "subdir"}:{inner[0]}:{"cross" if cross else "over"}:{n}KiB')
+    return {'files': files, 'gitignores': gis, 'commands': cmds}
+
+
+WRITE_OPEN = re.compile(r'\b(openat|open|creat)\(.*?"([^"]*/\.gitignore)"(?:, ([A-Z_|0-9a-z]+))?')
+
+
+def observe_open_flags(chk, xvc):
+    """one traced session: how does the binary open the ignore files it changes?  (the generated table of write sites and the
+    model say: O_APPEND, never O_TRUNC, no rename/unlink/truncate)  returns (observations, complaints) or None without strace"""
+    if not shutil.which('strace'):
+        return None
+    sb = Sandbox(chk.scratch, 'openflags', xvc)
+    obs, bad = [], []
+    try:
+        if sb.init()[0] != 0:
+            return None
+        for f in ['y.bin', 'a/x.bin', 'd/z.bin', 'd/e/w.bin']:
+            sb.write(f, 'data of ' + f)
+        sb.write(GI, sb.read(GI).decode() + '*.tmp')                  # no final newline: the repair write as well
+        tr = os.path.join(sb.base, 'trace.txt')
+        for args in (['file', 'track', 'y.bin', 'a/x.bin', 'd/'], ['file', 'copy', 'y.bin', 'new/y2.bin'], ['file', 'move', 'a/x.bin', 'a/x2.bin']):
+            rc, out, err = sb.run(['strace', '-f', '-y', '-o', tr, '-e', 'trace=openat,open,creat,rename,renameat,renameat2,unlink,unlinkat,truncate,ftruncate',
+                                   sb.xvc] + args)
+            if rc != 0 or not os.path.exists(tr):
+                return None if 'ptrace' in err or 'PTRACE' in err or not os.path.exists(tr) else (obs, bad)
+            for line in open(tr, errors='replace'):
+                if '/' + GI not in line: continue
+                m = WRITE_OPEN.search(line)
+                if m:
+                    flags = set((m.group(3) or '').split('|'))
+                    if m.group(1) == 'creat': flags |= {'O_WRONLY', 'O_CREAT', 'O_TRUNC'}
+                    if flags & {'O_WRONLY', 'O_RDWR', 'O_CREAT', 'O_TRUNC'}:
+                        rel = os.path.relpath(m.group(2), sb.root)
+                        obs.append((' '.join(args[:2]), rel, '|'.join(sorted(flags - {'O_CLOEXEC'}))))
+                        if 'O_APPEND' not in flags or 'O_TRUNC' in flags:
+                            bad.append(f'xvc {" ".join(args)}: {m.group(1)}({rel}, {m.group(3)})')
+                elif re.search(r'\b(rename|renameat|renameat2|unlink|unlinkat|truncate|ftruncate)\(', line):
+                    bad.append(f'xvc {" ".join(args)}: {line.split(None, 1)[-1].strip()[:160]}')
+    finally:
+        sb.cleanup()
+    return obs, bad
 
 
 K_REPLAYS = [
@@ -698,6 +827,19 @@ CORPUS = [
                   ('u-del-line', 'a', '/x.bin'), ('u-modify', 'a/x.bin', 'v2'), ('track', ['a/x.bin'], []),
                   ('u-del-line', 'a', '/y.bin'), ('recheck', ['a/y.bin'], True), ('u-del-line', 'a', '/y.bin'), ('carry-in', ['a/y.bin'], True)]},
 ]
+# seeded defect C16-2 (read - truncate - rewrite instead of O_APPEND): a LATER command fails at the .gitignore update
+FAULT_CORPUS = [
+    # the demo: 13 KB of user patterns in the root .gitignore, first.bin tracked, then `track second.bin` under ulimit -f 8
+    {'files': ['first.bin', 'second.bin'], 'gitignores': {'': big_user_lines(13300)},
+     'commands': [('track', ['first.bin'], []), ('fault-fsize', 8, ('track', ['second.bin'], [])), ('track', ['second.bin'], [])]},
+    # sub-directory .gitignore, the ignore handler thread (copy), 4 KiB
+    {'files': ['a/x.bin', 'a/y.bin'], 'gitignores': {'a': big_user_lines(5200)},
+     'commands': [('track', ['a/x.bin', 'a/y.bin'], []), ('fault-fsize', 4, ('copy', 'a/x.bin', 'a/copy.bin'))]},
+]
+FAULT_KILL_CORPUS = [
+    {'files': ['first.bin', 'second.bin'], 'gitignores': {'': '*.log\n'},
+     'commands': [('track', ['first.bin'], []), ('fault-kill', '', ('track', ['second.bin'], []))]},
+]
 # the first track happens while a user rule whitelists the file (K6a, known: xvc asks the user to remove the rule); the user
 # removes the rule and tracks again: from here on the path is outside the known region and must be ignored
 WHITELIST_THEN_REMOVED = {'files': ['labels.csv', 'other.csv'], 'gitignores': {'': '*.csv\n!labels.csv\n'},
@@ -708,8 +850,12 @@ def run(chk: Check):
     quick = chk.tier == 'quick'
     t_phase = time.time()
     ignore_extract.run(chk)
+    try:
+        c16_extract.run(chk)
+    except (RuntimeError, OSError) as ex:
+        chk.proof['broken'].append({'stage': 'translator', 'errors': [f'lib/c16_extract.py: {ex}'], 'package': 'XvcIgnore', 'theorems': ['C16_gitignore_opened_append_only']})
     model = chk.lean('XvcIgnore', 'XvcIgnore.Props.C16', exe='ignoremodel',
-                     extra_modules=['XvcIgnore.Glob', 'XvcIgnore.Pattern', 'XvcIgnore.Walk', 'XvcIgnore.GitIgnore', 'XvcIgnore.Lemmas', 'XvcIgnore.GitLemmas', 'XvcIgnore.GitMono', 'XvcIgnore.GitDir'])
+                     extra_modules=['XvcIgnore.Glob', 'XvcIgnore.Pattern', 'XvcIgnore.Walk', 'XvcIgnore.GitIgnore', 'XvcIgnore.Lemmas', 'XvcIgnore.GitLemmas', 'XvcIgnore.GitMono', 'XvcIgnore.GitDir', 'XvcIgnore.WritePrim', 'XvcIgnore.Gen.GitignoreWrites'])
     impl, _ = c09.build_harness(chk)
     xvc = chk.build_xvc()
     if not os.path.exists(model):
@@ -718,8 +864,9 @@ def run(chk: Check):
     chk.extra.setdefault('phase_s', {})['lean+cargo builds'] = round(time.time() - t_phase, 1)
     chk.trusted_base += [
         'translator lib/ignore_extract.py (GITIGNORE_INITIAL_CONTENT, COMMON_IGNORE_PATTERNS), cross-checked against the compiled constants (stream `const`)',
+        'translator lib/c16_extract.py (how file/src/common/gitignore.rs and xvc init open the ignore files: Gen/GitignoreWrites.lean), cross-checked against the open(2) flags strace observes in one traced session per run and against the fault stream',
         'harness harness/src/bin/walker_harness.rs (`gcheckignore` = build_ignore_patterns(.gitignore)+check, as build_gitignore does), lib/c16.py (generators, canonicalisation of dates and of the HashMap order inside one appended block, oracle), lib/xvcbin.py',
-        'modelled, not verified: git itself (dir.c/wildmatch are modelled by gitIgnored over globMatch and compared with the real `git check-ignore --no-index` on every run; `git add -A -n` is the oracle), chrono date text, OpenOptions::append, HashMap iteration order (irrelevant: one file per group)',
+        'modelled, not verified: git itself (dir.c/wildmatch are modelled by gitIgnored over globMatch and compared with the real `git check-ignore --no-index` on every run; `git add -A -n` is the oracle), chrono date text, the POSIX semantics of O_APPEND (WritePrim.lean `WriteKind.after`), HashMap iteration order (irrelevant: one file per group)',
     ]
     chk.assumptions += [
         'git reads only the .gitignore files of the work tree (scratch HOME: no core.excludesFile, empty .git/info/exclude)',
@@ -755,7 +902,7 @@ def run(chk: Check):
     chk.extra.setdefault('phase_s', {})['opinions'] = round(time.time() - t_phase, 1); t_phase = time.time()
 
     # ---- binary histories
-    n_sc = 40 if quick else 350
+    n_sc = 34 if quick else 350
     bst = chk.tie['streams'].setdefault('binary', {'cases': 0, 'commands': 0, 'user_steps': 0, 'disagreements': 0, 'oracle_failures': 0})
     seen_sig = set()
     specs = [dict(s) for s in CORPUS] + [dict(WHITELIST_THEN_REMOVED)] + [None] * n_sc
@@ -796,6 +943,41 @@ def run(chk: Check):
             chk.samples.append({'stream': 'binary', 'history': log, 'oracle': [m for m, _ in fails] or 'every obliged tracked path ignored by git, every .gitignore append-only'})
     chk.extra['phase_s']['binary'] = round(time.time() - t_phase, 1); t_phase = time.time()
 
+    # ---- the append primitive: open flags observed in one traced session, and faults at the .gitignore update
+    ost = chk.tie['streams'].setdefault('open-flags', {'cases': 0, 'disagreements': 0})
+    of_ = observe_open_flags(chk, xvc)
+    strace_ok = of_ is not None
+    if of_ is None:
+        chk.notes.append('strace is not usable here: open flags not observed, no kill variant in the fault stream')
+    else:
+        obs, bad = of_
+        ost['cases'] = len(obs); chk.evaluations += 1
+        for a, rel, fl in obs: chk.count(f'open-flags:{a}:{fl}')
+        if len(obs) < 3:
+            chk.notes.append(f'open-flags: only {len(obs)} write-opens of ignore files observed')
+        if bad:
+            ost['disagreements'] = len(bad)
+            chk.disagreement('open-flags', obs, bad, 'every write site opens the ignore file with append(true) and without truncate (Gen/GitignoreWrites.lean, C16_gitignore_opened_append_only): O_WRONLY|O_CREAT|O_APPEND',
+                             'the ignore files are not (only) opened for appending')
+    n_f = 6 if quick else 60
+    fst = chk.tie['streams'].setdefault('faults', {'cases': 0, 'commands': 0, 'oracle_failures': 0})
+    fspecs = [dict(s) for s in FAULT_CORPUS] + ([dict(s) for s in FAULT_KILL_CORPUS] if strace_ok else []) + [gen_fault_spec(rng, chk, strace_ok, j) for j in range(n_f)]
+    for j, spec in enumerate(fspecs):
+        fails, _, log = scenario(chk, pr, xvc, 5000 + j, rng, forced=spec)
+        fst['cases'] += 1; chk.evaluations += 1
+        fst['commands'] += sum(1 for l in log if 'cmd' in l)
+        chk.nontrivial.add(hashlib.sha1(repr(log).encode()).hexdigest())
+        for msg, sig in fails:
+            key = tuple(sorted(sig.items()))
+            if key in seen_sig: continue
+            seen_sig.add(key)
+            fst['oracle_failures'] += 1
+            chk.oracle_failure(msg, {'history': log, 'level': 'binary', 'stream': 'faults'}, {'all': [m for m, _ in fails]}, signature=sig)
+        if j == 0 and len(chk.samples) < 8:
+            chk.samples.append({'stream': 'faults', 'history': [{k2: v for k2, v in l.items() if k2 != 'gitignores'} for l in log],
+                                'oracle': [m for m, _ in fails] or 'every .gitignore keeps its bytes as a prefix, everything ignored before is still ignored'})
+    chk.extra['phase_s']['faults+open-flags'] = round(time.time() - t_phase, 1); t_phase = time.time()
+
     # ---- known-finding replays, judged by the oracle alone
     for j, spec in enumerate(K_REPLAYS):
         fails, _, log = scenario(chk, pr, xvc, 9000 + j, rng, forced={k: v for k, v in spec.items() if k != 'id'})
@@ -817,7 +999,12 @@ def run(chk: Check):
         'files with identical content; delete the line that ignores a tracked path or any user line; change the content of a file); after every xvc command: byte-prefix and line-prefix relation of '
         'every .gitignore, real `git check-ignore` and `git add -A -n` for every tracked path that the command named as target / materialised or that git ignored before the command (a path the user '
         'un-ignored and no later command named is not demanded), and the predicted bytes of every .gitignore and the predicted set of recorded paths (model `trackCmd`/`handlerUpdate`/`moveUpdate` on the '
-        f'real prior state) vs the real ones; failing generated histories are shrunk; {len(K_REPLAYS)} known-finding replays. Non-trivial = a tree with a user .gitignore / a history with at least two steps; distinct by input.')
+        'real prior state) vs the real ones; failing generated histories are shrunk; '
+        f'{len(fspecs)} fault histories: a LATER command (track file/glob/dir, copy, move, recheck, carry-in) runs under `trap "" XFSZ; ulimit -f 4|8|16` '
+        'with a root or sub-directory .gitignore that the user\'s own lines made larger than the limit (or so large that the appended block crosses it), or is killed by strace at its first write(2) to that '
+        '.gitignore; oracle: every byte that was in every .gitignore is still there as a prefix, every tracked path git ignored before is still ignored and not staged (the targets of the failed command are '
+        'not judged), optionally the same command again without fault; the open(2) flags of every ignore file the binary opens for writing in one traced session (track file+dir, copy, move) vs the generated '
+        f'table of write sites (O_APPEND, no O_TRUNC, no rename/unlink/truncate); {len(K_REPLAYS)} known-finding replays. Non-trivial = a tree with a user .gitignore / a history with at least two steps; distinct by input.')
     chk.extra['programs'] = bst['cases']
     return chk.finish()
 
